@@ -29,7 +29,7 @@ ASSUMPTIONS = [
     "module-level state outside the three force-field globals, the class-level descriptor list and the global generator would survive the per-history reset; it would then show up in a later history of the same worker",
     "baselines come from one fresh interpreter per check run (not from the worker that explores)",
 ]
-BOUNDS = {"quick": "3 strings, all histories of depth 2 (14 ops x 2 instances), merged BFS to depth 3", "thorough": "5 strings, all histories of depth 3, merged BFS to depth 5"}
+BOUNDS = {"quick": "3 strings, all histories of depth 2 (14 ops x 2 instances), merged BFS to depth 3", "thorough": "5 strings, all histories of depth 3 for two of them (rotated by seed) and depth 2 for the others, merged BFS to depth 5"}
 CASE_TIMEOUT = {"quick": 900, "thorough": 6000}
 
 STRINGS = [
@@ -99,8 +99,8 @@ def enumerate_cases(tier, seed):
     k = seed % len(strings)
     strings = strings[k:] + strings[:k]
     base = baselines(strings + [SIBLINGS[s] for s in strings])
-    depth = 2 if tier == "quick" else 3
-    for s in strings:
+    for si, s in enumerate(strings):
+        depth = 3 if (tier == "thorough" and si < 2) else 2
         for first in OPS:
             for inst in (0, 1):
                 yield ("histories", {"s": s, "first": [first, inst], "depth": depth, "base": base[s], "sib": SIBLINGS[s], "sib_base": base[SIBLINGS[s]]})
